@@ -163,7 +163,7 @@ FUZZ = dict(
 
 def budget(tier):
     if tier == 'quick':
-        return dict(examples=4800, wall=100)
+        return dict(examples=6400, wall=100)
     return dict(examples=140000, wall=1500)
 
 
